@@ -777,3 +777,167 @@ def run(rep: Report, prog: Program, tier: str) -> None:
     EventsDomain(prog, ev_conn, obs_conn, kill_guards_on_call=False).run(connect)
     if seen["dtls"] < 2 or seen["media"] < 3:
         raise AnalysisError(f"__connect: start sites not recognised {seen}")
+
+    # ---------------------------------------------------------------- C03-OFFERDIR / C03-BUNDLE-EVAL: two statements of setRemoteDescription evaluated on object graphs
+    # (a) the per-section statement that matches / creates the transceiver and records the offered direction, over successive negotiations;
+    # (b) the BUNDLE statement that moves every bundled object onto the primary's transport, over creation orders and earlier bundling states
+    rep.rule("C03-OFFERDIR", "every remote offer records the direction it offers for each matched transceiver (first offer, re-offer with another direction, offering side swapped)", min_instances=4)
+    sec_if = None
+    bundle_if = None
+    for n in ast.walk(set_remote.node):
+        if isinstance(n, ast.If) and sec_if is None and "media.kind" in unparse(n.test) and any(isinstance(x, ast.Attribute) and x.attr == "_offerDirection" for b in n.body for x in ast.walk(b)):
+            sec_if = n
+        if isinstance(n, ast.If) and bundle_if is None and unparse(n.test).startswith("bundle and bundle.items"):
+            bundle_if = n
+    if sec_if is None or bundle_if is None:
+        raise AnalysisError("setRemoteDescription: the per-section statement assigning _offerDirection / the BUNDLE statement was not found")
+    created: List[Any] = []
+    stopped: List[Any] = []
+
+    class HNS(SimpleNamespace):
+        """namespace object usable as a dict key / set member (identity), like the real transceivers and transports"""
+        __hash__ = object.__hash__
+
+        def __eq__(self, other):
+            return self is other
+
+    def _sr_extra(call: ast.Call, ev: Evaluator) -> Any:
+        nm = unparse(call.func)
+        if nm == "self.__createTransceiver":
+            kw = {k.arg: ev.ev(k.value) for k in call.keywords}
+            t = _mk_transceiver(kw.get("kind"), None, f"created-{len(created)}")
+            created.append(t)
+            ev.env["self"].__dict__["__transceivers"].append(t)
+            return t
+        if nm in ("find_common_codecs", "filter_preferred_codecs"):
+            return ["codec"]
+        if nm == "find_common_header_extensions":
+            return ["ext"]
+        if nm in ("RemoteStreamTrack", "RTCTrackEvent"):
+            return SimpleNamespace(**{k.arg: ev.ev(k.value) for k in call.keywords})
+        if nm.endswith(".webrtc_track_id"):
+            return "track-id"
+        if isinstance(call.func, ast.Attribute):
+            a = call.func.attr
+            if a in ("_set_mid", "_set_mline_index", "_setCurrentDirection", "setTransport"):
+                obj = ev.ev(call.func.value)
+                v = ev.ev(call.args[0])
+                if a == "_set_mid":
+                    obj.mid = v
+                elif a == "_set_mline_index":
+                    obj.mline_index = v
+                elif a == "_setCurrentDirection":
+                    obj.currentDirection = v
+                else:
+                    obj.transport = v
+                return None
+            if a == "stop" and not call.args:
+                stopped.append(ev.ev(call.func.value))
+                return None
+            if a in ("discard", "pop") and unparse(call.func.value) in ("self.__dtlsTransports", "self.__iceTransports", "iceCandidates"):
+                return None
+        if nm.startswith("self.__update"):
+            return None
+        return NotImplemented
+    sr_hook = make_hook(prog, _sr_extra)
+
+    def _mk_transceiver(kind, mid, name, transport=None, bundled=False):
+        tr = transport if transport is not None else HNS(name=f"dtls-of-{name}", transport=HNS(name=f"ice-of-{name}"))
+        return HNS(name=name, kind=kind, mid=mid, _offerDirection=None, currentDirection=None, _preferred_codecs=[], _codecs=[], _headerExtensions=[], _bundled=bundled,
+                   receiver=HNS(track=None, transport=tr, _track=None), sender=HNS(transport=tr))
+
+    def _run_section(me, typ, kind, mid, direction, index=0):
+        media = SimpleNamespace(kind=kind, direction=direction, rtp=SimpleNamespace(muxId=mid, codecs=["c"], headerExtensions=["e"]), dtls=SimpleNamespace(role="auto"),
+                                ice=SimpleNamespace(iceLite=False, usernameFragment="u", password="p"))
+        env = {"self": me, "media": media, "i": index, "description": SimpleNamespace(type=typ, media=[media]), "trackEvents": [], "dtlsTransport": None}
+        Evaluator(prog, set_remote.module, set_remote.cls, env, sr_hook).exec_stmt(sec_if)
+
+    def _pc(transceivers, sctp=None):
+        me = SimpleNamespace(__cls__=set_remote.cls)
+        for k, v in {"__transceivers": list(transceivers), "__sctp": sctp, "__dtlsTransports": set(), "__iceTransports": set(), "__seenMids": set(), "__remoteDtls": {}, "__remoteIce": {}}.items():
+            setattr(me, k, v)
+        return me
+    offer_cases = []
+    try:
+        # fresh answerer: first offer, then a re-offer of the same side with another direction
+        me = _pc([])
+        _run_section(me, "offer", "audio", "0", "sendrecv")
+        t0 = getattr(me, "__transceivers")[0]
+        offer_cases.append(("first remote offer (sendrecv)", t0._offerDirection, "sendrecv"))
+        _run_section(me, "offer", "audio", "0", "recvonly")
+        offer_cases.append(("re-offer of the same side, now recvonly", t0._offerDirection, "sendonly"))
+        _run_section(me, "offer", "audio", "0", "inactive")
+        offer_cases.append(("re-offer of the same side, now inactive", t0._offerDirection, "inactive"))
+        # the former offerer: its transceiver got its mid from its own local offer; now the other side offers
+        mine = _mk_transceiver("video", "1", "own")
+        me2 = _pc([mine])
+        _run_section(me2, "answer", "video", "1", "sendrecv")
+        offer_cases.append(("an answer leaves the offered direction alone", mine._offerDirection, None))
+        offer_cases.append(("an answer sets the current direction", mine.currentDirection, "sendrecv"))
+        _run_section(me2, "offer", "video", "1", "sendonly")
+        offer_cases.append(("offering side swapped: remote offer for a transceiver that already has its mid", mine._offerDirection, "recvonly"))
+    except Raised as ex:
+        rep.fail(mk_finding(prog, PROP, "C03-OFFERDIR", set_remote, getattr(ex, "node", None), f"the per-section statement raises {ex.name}", construct=f"section raises {ex.name}"))
+    except Unknown as ex:
+        raise AnalysisError(f"C03-OFFERDIR cannot evaluate the per-section statement of setRemoteDescription: {ex}")
+    for label, got, want in offer_cases:
+        if got == want:
+            rep.ok("C03-OFFERDIR", label, sample=f"{got!r}")
+        else:
+            rep.fail(mk_finding(prog, PROP, "C03-OFFERDIR", set_remote, sec_if, f"{label}: recorded {got!r}, expected {want!r}: createAnswer() intersects the transceiver's direction with a stale / missing offered "
+                                "direction (ValueError for None, or an answer that does not mirror the offer)", construct="offered direction not recorded for this offer"))
+
+    rep.rule("C03-BUNDLE-EVAL", "the BUNDLE statement moves every bundled object onto the primary's transport and stops exactly the transports nobody uses any more", min_instances=5)
+
+    def _bundle_case(label, build):
+        del stopped[:]
+        trs, sctp, items, primary_name = build()
+        me = _pc(trs, sctp)
+        members = [t for t in trs if t.mid in items] + ([sctp] if sctp is not None and sctp.mid in items else [])
+        def transport_of(o):
+            return o.receiver.transport if hasattr(o, "receiver") else o.transport
+        primary = next(o for o in members if o.name == primary_name)
+        p_tr = transport_of(primary)
+        before = {id(transport_of(o)): transport_of(o) for o in members}
+        env = {"self": me, "bundle": SimpleNamespace(semantic="BUNDLE", items=list(items)), "iceCandidates": {}, "description": SimpleNamespace(group=[])}
+        try:
+            Evaluator(prog, set_remote.module, set_remote.cls, env, sr_hook).exec_stmt(bundle_if)
+        except Raised as ex:
+            rep.fail(mk_finding(prog, PROP, "C03-BUNDLE-EVAL", set_remote, getattr(ex, "node", None), f"[{label}] raises {ex.name}", construct=f"bundle raises {ex.name}"))
+            return
+        except Unknown as ex:
+            raise AnalysisError(f"C03-BUNDLE-EVAL cannot evaluate the BUNDLE statement [{label}]: {ex}")
+        problems = []
+        for o in members:
+            if transport_of(o) is not p_tr or (hasattr(o, "sender") and o.sender.transport is not p_tr):
+                problems.append(f"{o.name} runs over {getattr(transport_of(o), 'name', None)}, the primary ({primary.name}) uses {p_tr.name}")
+        want_stopped = {i for i in before if before[i] is not p_tr}
+        got_stopped = {id(x) for x in stopped if hasattr(x, "transport") and not hasattr(x, "receiver")}
+        if any(x is p_tr or x is p_tr.transport for x in stopped):
+            problems.append("the primary transport (or its ICE transport) is stopped")
+        missing = [before[i].name for i in want_stopped - got_stopped]
+        if missing:
+            problems.append(f"transports {missing} are no longer used but were not stopped")
+        if problems:
+            rep.fail(mk_finding(prog, PROP, "C03-BUNDLE-EVAL", set_remote, bundle_if, f"[{label}] " + "; ".join(problems[:3]), construct="bundle: " + problems[0][:60]))
+        else:
+            rep.ok("C03-BUNDLE-EVAL", label, sample=f"{len(members)} objects on {p_tr.name}; {len(want_stopped)} transport(s) stopped")
+
+    def _sctp(mid, name="sctp", transport=None, bundled=False):
+        return HNS(name=name, mid=mid, _bundled=bundled, transport=transport if transport is not None else HNS(name="dtls-of-sctp", transport=HNS(name="ice-of-sctp")))
+    _bundle_case("audio, video, data created in m-line order", lambda: ([_mk_transceiver("audio", "0", "audio"), _mk_transceiver("video", "1", "video")], _sctp("2"), ["0", "1", "2"], "audio"))
+    _bundle_case("answerer created video before audio (primary is the second transceiver)",
+                 lambda: ([_mk_transceiver("video", "1", "video"), _mk_transceiver("audio", "0", "audio")], _sctp("2"), ["0", "1", "2"], "audio"))
+    _bundle_case("answerer pre-created only video; audio was created while applying the offer",
+                 lambda: ([_mk_transceiver("video", "1", "video"), _mk_transceiver("audio", "0", "audio")], None, ["0", "1"], "audio"))
+    _bundle_case("data channel section is the primary", lambda: ([_mk_transceiver("audio", "1", "audio")], _sctp("0"), ["0", "1"], "sctp"))
+
+    def _already():
+        shared = HNS(name="dtls-shared", transport=HNS(name="ice-shared"))
+        return ([_mk_transceiver("audio", "0", "audio", shared), _mk_transceiver("video", "1", "video", shared, True)], _sctp("2", transport=shared, bundled=True), ["0", "1", "2"], "audio")
+    _bundle_case("second negotiation: everything already bundled", _already)
+
+    def _dc_first():
+        shared = HNS(name="dtls-shared", transport=HNS(name="ice-shared"))
+        return ([_mk_transceiver("audio", "1", "audio", shared, True)], _sctp("0", transport=shared), ["1", "0"], "audio")
+    _bundle_case("max-bundle, data channel created first: the primary shares its transport with the SCTP transport", _dc_first)
